@@ -427,10 +427,19 @@ package schema
 
 //@ abstract punserOK(p *PropertySchema, d any) bool
 //@ abstract punserV(p *PropertySchema, d any) any
+// extractedDefs(props) is the (mathematical) table of decoded default values of a property set; the maps
+// the code builds are equal to it in content.
+//@ abstract extractedDefs(props map[string]*PropertySchema) map[string]any
+//@ axiom extractedDefsIsATable: forall p map[string]*PropertySchema :: extractedDefs(p) != nil && birth(refof(extractedDefs(p))) < 0
+//@ spec mapEq(a map[string]any, b map[string]any) bool = forall k string :: ((k in a) == (k in b)) && (k in a ==> a[k] == b[k])
+//@ func extractObjectDefaultValues(properties) -> res
+//@   names res != nil && fresh(res) && mapEq(res, extractedDefs(properties))
 //@ func ObjectSchema.GetDefaults(o) -> res
 //@   ensures old(o.defaultValues) != nil ==> res == old(o.defaultValues) && o.defaultValues == old(o.defaultValues)
+//@   ensures old(o.defaultValues) == nil ==> o.defaultValues == res && fresh(res) && mapEq(res, extractedDefs(o.PropertiesValue))
 //@   ensures res != nil
 //@   assigns o.defaultValues
+//@ ospec defsOf(o *ObjectSchema) map[string]any = old(o.defaultValues) != nil ? old(o.defaultValues) : extractedDefs(old(o.PropertiesValue))
 
 //@ func ObjectSchema.invalidKeyError(o, value) -> err
 //@   trusted
@@ -453,13 +462,13 @@ package schema
 
 //@ func ObjectSchema.convertData(o, v) -> rawData, err
 //@   requires rv_valid(v) && kind(rv_type(v)) == KindMap
-//@   requires o.fieldCache == nil && o.defaultValues != nil
+//@   requires o.fieldCache == nil
 //@   ensures err == nil ==> (forall j int :: 0 <= j && j < rv_len(v) ==> typeOf(rv_iface(rv_key(v, j))) == type(string) && skey(v, j) in o.PropertiesValue && skey(v, j) in rawData)
-//@   ensures err == nil ==> (forall k string :: k in rawData ==> k in o.PropertiesValue && finalForm(o, v, old(o.defaultValues), rawData, k))
-//@   ensures err == nil ==> (forall k string :: k in o.PropertiesValue && !supplied(v, k) && k in old(o.defaultValues) ==> k in rawData)
+//@   ensures err == nil ==> (forall k string :: k in rawData ==> k in o.PropertiesValue && finalForm(o, v, defsOf(o), rawData, k))
+//@   ensures err == nil ==> (forall k string :: k in o.PropertiesValue && !supplied(v, k) && k in defsOf(o) ==> k in rawData)
 //@   loop 1 invariant rawData != nil && fresh(rawData) && (forall j int :: 0 <= j && j <= idx ==> typeOf(rv_iface(rv_key(v, j))) == type(string) && skey(v, j) in o.PropertiesValue && skey(v, j) in rawData) && (forall k string :: k in rawData ==> k in o.PropertiesValue && supplied(v, k) && rawData[k] == suppliedV(v, k))
-//@   loop 2 invariant rawData != nil && fresh(rawData) && o.PropertiesValue == old(o.PropertiesValue) && o.fieldCache == nil && o.defaultValues == old(o.defaultValues) && (forall j int :: 0 <= j && j < rv_len(v) ==> typeOf(rv_iface(rv_key(v, j))) == type(string) && skey(v, j) in o.PropertiesValue && skey(v, j) in rawData) && (forall k string :: k in rawData ==> k in o.PropertiesValue && rawForm(v, old(o.defaultValues), rawData, k)) && (forall k string :: k in visited && !supplied(v, k) && k in old(o.defaultValues) ==> k in rawData)
-//@   loop 3 invariant rawData != nil && fresh(rawData) && o.PropertiesValue == old(o.PropertiesValue) && (forall j int :: 0 <= j && j < rv_len(v) ==> typeOf(rv_iface(rv_key(v, j))) == type(string) && skey(v, j) in o.PropertiesValue && skey(v, j) in rawData) && (forall k string :: k in rawData ==> k in o.PropertiesValue && (k in visited ? finalForm(o, v, old(o.defaultValues), rawData, k) : rawForm(v, old(o.defaultValues), rawData, k))) && (forall k string :: k in o.PropertiesValue && !supplied(v, k) && k in old(o.defaultValues) ==> k in rawData)
+//@   loop 2 invariant rawData != nil && fresh(rawData) && o.PropertiesValue == old(o.PropertiesValue) && o.fieldCache == nil && (o.defaultValues == old(o.defaultValues) || (old(o.defaultValues) == nil && o.defaultValues != nil && o.defaultValues != rawData && mapEq(o.defaultValues, extractedDefs(o.PropertiesValue)))) && (forall j int :: 0 <= j && j < rv_len(v) ==> typeOf(rv_iface(rv_key(v, j))) == type(string) && skey(v, j) in o.PropertiesValue && skey(v, j) in rawData) && (forall k string :: k in rawData ==> k in o.PropertiesValue && rawForm(v, defsOf(o), rawData, k)) && (forall k string :: k in visited && !supplied(v, k) && k in defsOf(o) ==> k in rawData)
+//@   loop 3 invariant rawData != nil && fresh(rawData) && o.PropertiesValue == old(o.PropertiesValue) && (forall j int :: 0 <= j && j < rv_len(v) ==> typeOf(rv_iface(rv_key(v, j))) == type(string) && skey(v, j) in o.PropertiesValue && skey(v, j) in rawData) && (forall k string :: k in rawData ==> k in o.PropertiesValue && (k in visited ? finalForm(o, v, defsOf(o), rawData, k) : rawForm(v, defsOf(o), rawData, k))) && (forall k string :: k in o.PropertiesValue && !supplied(v, k) && k in defsOf(o) ==> k in rawData)
 
 // one-of: routing by the discriminator only, discriminator stripped or passed on per the inlining flag
 //@ func OneOfSchema.deleteDiscriminator(o, mymap) -> res
@@ -489,6 +498,9 @@ package schema
 //@   ensures data[o.DiscriminatorFieldNameValue] == nil || typeOf(data[o.DiscriminatorFieldNameValue]) != type(KeyType) ==> err != nil
 
 //@ func OneOfSchema.UnserializeType(o, data) -> result, err
+//@   checks err == nil && typeOf(unserializedData) == type(map[string]any) ==> typeOf(result) == type(map[string]any) && result.(map[string]any) == unserializedData.(map[string]any) && o.DiscriminatorFieldNameValue in result.(map[string]any) && result.(map[string]any)[o.DiscriminatorFieldNameValue] == any(typedDiscriminator) && typedDiscriminator in o.TypesValue
+//@   checks err == nil ==> unserOK(o.TypesValue[typedDiscriminator], any(cloneData)) && unserializedData == unserV(o.TypesValue[typedDiscriminator], any(cloneData))
+//@   checks err == nil ==> (o.DiscriminatorInlined ? cloneData == typedData : cloneData != typedData)
 //@   ensures data == nil || kindOf(data) != KindMap ==> err != nil
 
 //@ func ObjectSchema.unserializeInlinedDataToMap(o, data) -> res, err
@@ -498,12 +510,12 @@ package schema
 //@   loop 1 invariant true
 
 //@ func ObjectSchema.Unserialize(o, data) -> result, err
-//@   requires o.fieldCache == nil && o.defaultValues != nil
+//@   requires o.fieldCache == nil
 //@   ensures kindOf(data) != KindMap && len(o.PropertiesValue) != 1 ==> err != nil
 //@   ensures err == nil ==> typeOf(result) == type(map[string]any) && result.(map[string]any) != nil && (forall k string :: k in o.PropertiesValue ==> ruleOK(o.PropertiesValue[k], k, result.(map[string]any)))
-//@   ensures err == nil && kindOf(data) == KindMap ==> (forall k string :: k in result.(map[string]any) ==> k in o.PropertiesValue && finalForm(o, rv_of(data), old(o.defaultValues), result.(map[string]any), k))
+//@   ensures err == nil && kindOf(data) == KindMap ==> (forall k string :: k in result.(map[string]any) ==> k in o.PropertiesValue && finalForm(o, rv_of(data), defsOf(o), result.(map[string]any), k))
 //@   ensures err == nil && kindOf(data) == KindMap ==> (forall j int :: 0 <= j && j < rv_len(rv_of(data)) ==> typeOf(rv_iface(rv_key(rv_of(data), j))) == type(string) && skey(rv_of(data), j) in result.(map[string]any))
-//@   ensures err == nil && kindOf(data) == KindMap ==> (forall k string :: k in o.PropertiesValue && !supplied(rv_of(data), k) && k in old(o.defaultValues) ==> k in result.(map[string]any))
+//@   ensures err == nil && kindOf(data) == KindMap ==> (forall k string :: k in o.PropertiesValue && !supplied(rv_of(data), k) && k in defsOf(o) ==> k in result.(map[string]any))
 
 // ---------------------------------------------------------------------------------------------
 // C17: the error path leads to the offending element
